@@ -756,6 +756,7 @@ def c17(ctx):
         subsets = [s for s in subsets if sorted(s["features"]) in [sorted(w) for w in want]]
     env = dict(os.environ, CARGO_NET_OFFLINE="true")
     findings = []
+    vlib.point_at_repo()
     def build_and_run(feats, tdir):
         cmd = ["cargo", "build", "--offline", "--quiet", "--features", ",".join(feats), "--target-dir", tdir]
         b = subprocess.run(cmd, cwd=FEATPROBE, env=env, stdout=subprocess.PIPE, stderr=subprocess.STDOUT, text=True)
